@@ -26,18 +26,13 @@
 #ifndef VF_ALPHABET
 #define VF_ALPHABET "aabbc\n\rB\xc3\xa9"
 #endif
-#ifdef C07_STD_STRING
-#define VF_STRING_SELF_T struct l_class_OC_std_KD__KD___cxx11_KD__KD_basic_string
-#endif
 #include "verif.h"
 
 #ifndef VF_REAL
-#ifndef C07_THIN
 /* libstdc++ externals of  throw std::overflow_error( "..." ): the exception object is only ever identified by its type (ll2c lowers
  * __cxa_throw / landing pads and knows std::overflow_error -> std::runtime_error -> std::exception); what() is never called */
 void x__ZNSt14overflow_errorC1EPKc(PS_class_std__overflow_error self, Pu8 msg) { (void)self; (void)msg; }
 void x__ZNSt14overflow_errorD1Ev(PS_class_std__overflow_error self) { (void)self; }
-#endif
 #endif
 /* the library's own assert()s (buffer_occupied, buffer_free_*, constructors) are checked, not assumed */
 void x___assert_fail(Pu8 a, Pu8 b, u32 c, Pu8 d) { (void)a; (void)b; (void)c; (void)d; CHECK(0, "library assert() failed"); }
@@ -46,34 +41,6 @@ u32 x_verif_sym(u32 k, u64 pos, u32 a, u32 m, u64 *np) { *np = pos; return 0; }
 u32 x_verif_sym2(u32 k, u64 pos, u64 end, u32 a, u32 m, u64 *np) { *np = pos; return 0; }
 u32 x_verif_veto(u32 rule, u64 b, u64 e) { return 1; }
 #define MIN(a, b) ((a) < (b) ? (a) : (b))
-
-#if defined(C07_THIN)
-/* ------------------------------------------------------------------ string_input / argv_input hand (pointer, size) to memory_input */
-static void harness(void) {
-  u64 n = IN(0, LMAX);
-  u8 *b = (u8 *)exact_alloc_n(n + 1, LMAX + 1);
-  for (u64 i = 0; i < LMAX; ++i) { u8 v = IN_BYTE(); if (i < n) b[i] = v; }
-  u64 o[8];
-#if !defined(VF_SPLIT) || defined(V_string)
-  w_string_input((char *)b, n, o);
-  CHECK(o[0] == n && o[1] == 1, "string_input presents exactly the bytes of the string");
-  CHECK(o[2] == 0 && o[3] == 1 && o[4] == 1, "string_input starts at byte 0, line 1, column 1");
-  CHECK(o[5] == (u64)(n > 0) && o[6] == (u64)(n > 0), "a rule sees the same data through string_input");
-  OBS(o[0]); OBS(o[5]);
-#endif
-#if !defined(VF_SPLIT) || defined(V_argv)
-  for (u64 i = 0; i < LMAX; ++i) if (i < n) ASSUME(b[i] != 0);
-  b[n] = 0;
-  w_argv_input((char *)b, o);
-  CHECK(o[0] == n && o[1] == 1, "argv_input presents exactly argv[n] up to its terminator");
-  CHECK(o[2] == 0 && o[3] == 1 && o[4] == 1, "argv_input starts at byte 0, line 1, column 1");
-  CHECK(o[5] == (u64)(n > 0) && o[6] == (u64)(n > 0), "a rule sees the same data through argv_input");
-  OBS(o[0]); OBS(o[5]);
-#endif
-  REACH(n == 0, "empty data");
-  REACH(n == LMAX, "data of maximal length");
-}
-#else
 
 /* ------------------------------------------------------------------ stream, reader, observation */
 static u8 S[LMAX + 1]; static u64 L, rd, T[LMAX + 1];
@@ -110,9 +77,7 @@ void x_verif_snap(u32 idx, u8 *p, u64 byte, u64 line, u64 col, u64 occ, u64 c, u
   CHECK(c <= M_ && occ <= M_ - c && c + occ + fr == M_, "buffer <= current <= end <= buffer + capacity");
   CHECK(p == base_ + c, "current() points into the buffer object");
   CHECK(byte + occ == rd && rd <= L, "bytes consumed + bytes buffered = bytes read from the stream (nothing lost, nothing duplicated)");
-#ifndef C07_NO_CONTENT
   for (u64 i = 0; i < CAPMAX; ++i) if (i < occ && byte + i < L) CHECK(p[i] == S[byte + i], "the buffered window is the stream at the consumed offset");
-#endif
 }
 static int same_state(st_t a, st_t b) {
   return a.byte == b.byte && a.line == b.line && a.col == b.col && a.occ == b.occ && a.c == b.c && a.fr == b.fr && a.cap == b.cap;
@@ -127,12 +92,20 @@ static void advance(u64 byte, u64 k, u64 *line, u64 *col) {
   for (u64 i = 0; i < CAPMAX; ++i) if (i < k && byte + i < L) { if (S[byte + i] == '\n') { (*line)++; *col = 1; } else (*col)++; }
 }
 
+/* index of the first 'b' at or after stream offset from, relative to from (rest of the stream if there is none) */
+static u64 first_b(u64 from) {
+  u64 r = L - from; int found = 0;
+  for (u64 i = 0; i < LMAX; ++i) if (!found && i >= from && i < L && S[i] == 'b') { r = i - from; found = 1; }
+  return r;
+}
+
 /* action log of the rule queries */
 #define ALOG 4
-static u64 al_[2][ALOG][6]; static unsigned al_n[2], al_sel;
+static u64 al_[2 * ALOG * 6]; static unsigned al_n[2], al_sel;   /* flat: CBMC mis-handles pointers into rows of a multi-dimensional array */
+#define AL(sel, i, j) al_[((sel) * ALOG + (i)) * 6 + (j)]
 void x_verif_act(u32 id, u64 byte, u64 line, u64 col, u64 size, u64 sum) {
   unsigned n = al_n[al_sel];
-  if (n < ALOG) { u64 *e = al_[al_sel][n]; e[0] = id; e[1] = byte; e[2] = line; e[3] = col; e[4] = size; e[5] = sum; }
+  if (n < ALOG) { AL(al_sel, n, 0) = id; AL(al_sel, n, 1) = byte; AL(al_sel, n, 2) = line; AL(al_sel, n, 3) = col; AL(al_sel, n, 4) = size; AL(al_sel, n, 5) = sum; }
   al_n[al_sel] = n + 1;
 }
 
@@ -204,7 +177,7 @@ static void harness(void) {
     if (om[0] == 2) CHECK(ob[2] == om[2] && ob[3] == om[3] && ob[6] == om[6] && ob[7] == om[7], "same parse error (rule and position)");
     CHECK(al_n[0] == al_n[1], "same number of action calls");
     for (unsigned i = 0; i < ALOG; ++i) if (i < al_n[0] && i < al_n[1])
-      for (unsigned j = 0; j < 6; ++j) CHECK(al_[0][i][j] == al_[1][i][j], "same action trace (rule, position, matched bytes)");
+      for (unsigned j = 0; j < 6; ++j) CHECK(AL(0, i, j) == AL(1, i, j), "same action trace (rule, position, matched bytes)");
   }
   OBS(ob[0]); OBS(ob[1]); OBS(om[0]); OBS(om[1]); OBS(al_n[0]);
 #if defined(KF_ONLY_D9)
@@ -288,7 +261,7 @@ static void op(int q) {
 #if !QSEL(Q_EMPTY)
     {
 #ifndef KF_EXCLUDE_D9
-      REACH(r == 0 && s1.shorts > s0.shorts && a > s0.occ + 1 && s1.occ >= a, "request satisfied although the reader returned a short read");
+      REACH(r == 0 && s1.shorts > s0.shorts && a > s0.occ + 1, "the reader returned a short read while at least two more bytes were requested");
 #endif
       REACH(r == 0 && a > s0.occ && s1.occ < a && s1.occ == rem, "request larger than the rest of the stream");
       REACH(r == 0 && a > s0.occ && s0.c > 0 && s0.occ > 0, "refill with the cursor in the middle of the buffer");
@@ -368,5 +341,4 @@ static void harness(void) {
   REACH(1, "reachable");
 #endif
 }
-#endif
 #endif
